@@ -180,7 +180,7 @@ func main() {
 		fmt.Fprintln(os.Stderr, "ERROR:", err)
 		os.Exit(2)
 	}
-	if ho, hk, err := buildHookOverlay(prog, cfg); err != nil {
+	if ho, hk, err := buildHookOverlay(prog, cfg, pkgs[0]); err != nil {
 		fmt.Fprintln(os.Stderr, "ERROR: replay hooks:", err)
 		os.Exit(2)
 	} else {
